@@ -10,6 +10,7 @@ class NotPoly(Exception):
     pass
 
 MAX_MONOS = 400000
+CANCEL = [0]   # number of monomials that cancelled in padd/pmul since last reset (R05.nocancel)
 
 def pconst(c):
     c = Fraction(c)
@@ -25,6 +26,7 @@ def padd(a, b):
         v = r.get(m, 0) + c
         if v == 0:
             r.pop(m, None)
+            CANCEL[0] += 1
         else:
             r[m] = v
     return r
@@ -54,6 +56,7 @@ def pmul(a, b):
             v = r.get(m, 0) + c1 * c2
             if v == 0:
                 r.pop(m, None)
+                CANCEL[0] += 1
             else:
                 r[m] = v
     if len(r) > MAX_MONOS:
